@@ -39,7 +39,7 @@ C03_Edit(kind, repl, s, e, before, after) == after = Sp!Apply(kind, repl, s, e, 
 \* C05  caches are unobservable                            -> LintGroup!CacheUnobservable
 \* C06  reported misspelt exactly when not in the dictionary -> Spell!ListedAccepted, CasedFormsAccepted, UnknownFlagged
 \* C07  added words are accepted and never lost            -> DictFile!NeverLosesExceptKnown, JsLinter!ImportedWordsAccepted,
-\*                                                            FileDictName!Fits, Distinct
+\*                                                            FileDictName!Fits, Distinct, DictPath!SavedWhereConfigured
 \* C08  diagnostics and edits land on the flagged text
 C08_RangeCovers(t, s, e) == Po!RangeToSpan(t, Po!SpanToRange(t, s, e), TRUE) = <<s, e>>
 C08_ClientEdit(t, s, e, new) == Po!ClientApply(t, Po!SpanToRange(t, s, e), new) = Sp!Apply("ReplaceWith", new, s, e, t)
